@@ -54,11 +54,7 @@ example (h : Generated.lyjsonExpLeadingZeroFixed = false) :
   rw [he]
   rfl
 
--- AUDIT: the example above assumes `Generated.lyjsonExpLeadingZeroFixed = false`; on the tree as generated now the
--- switch is `true` (F14 fixed) and the example says nothing.  Its counterpart for the fixed source follows: the same
--- input now stores `5`, NUL into 2 bytes, and `0.10203e3` goes through the rewritten branch (7 stores into 7 bytes) —
--- hypotheses of `json_exp_number_in_bounds` met on both, conclusion instantiated.  See the AUDIT note in
--- `Props/C05JsonNum.lean`.
+-- AUDIT (resolved): example above = 3.7.8 branch only; fixed-source counterpart follows, value statement proved (`json_number_value_fixed`, `Props/C05JsonNum.lean`).
 
 /-- non-vacuity (audit): `json_exp_number_in_bounds` at the F14 witnesses on the fixed source -/
 example (h : Generated.lyjsonExpLeadingZeroFixed = true) :
